@@ -129,8 +129,12 @@ func gc(keep string) {
 		ds = append(ds, de{e.Name(), fi.ModTime().UnixNano()})
 	}
 	sort.Slice(ds, func(i, j int) bool { return ds[i].mod > ds[j].mod })
+	keepN := 3
+	if v := os.Getenv("VERIF_CACHE_KEEP"); v != "" {
+		fmt.Sscan(v, &keepN)
+	}
 	for i, d := range ds {
-		if i >= 3 {
+		if i >= keepN {
 			_ = os.RemoveAll(filepath.Join(CacheRoot(), d.name))
 		}
 	}
